@@ -50,6 +50,50 @@ def enosys_of(goarch):
     return 89 if goarch.startswith("mips") else 38
 
 
+def simulate_goarch(ctx, bindir, goarches, tabled):
+    """Executes the GOARCH lookup of Policy.Assemble for architectures this host cannot run: the harness command archsim is built with
+    an overlay in which the expression runtime.GOARCH of arch/info.go reads VERIF_GOARCH. Returns [(message, witness)]."""
+    src = os.path.join(vlib.REPO, "arch", "info.go")
+    text = open(src).read()
+    if text.count("runtime.GOARCH") != 1:
+        ctx.skip("arch/info.go does not contain exactly one `runtime.GOARCH`: the GOARCH simulation cannot be applied")
+        return []
+    ov_file = ctx.path("overlay", "info.go")
+    open(ov_file, "w").write(text.replace("runtime.GOARCH", "verifGOARCH()") +
+                             "\nfunc verifGOARCH() string {\n\tif v := verifGetenv(\"VERIF_GOARCH\"); v != \"\" {\n\t\treturn v\n\t}\n\treturn runtime.GOARCH\n}\n")
+    env_file = ctx.path("overlay", "verif_env.go")
+    open(env_file, "w").write("package arch\n\nimport \"os\"\n\nfunc verifGetenv(k string) string { return os.Getenv(k) }\n")
+    ov = ctx.path("overlay", "overlay.json")
+    json.dump({"Replace": {src: ov_file, os.path.join(vlib.REPO, "arch", "zz_verif_env.go"): env_file}}, open(ov, "w"))
+    hsrc = os.path.dirname(bindir)
+    out_bin = os.path.join(bindir, "archsim_overlay")
+    rc, o, e = ctx.run(["go", "build", "-tags", "verif", "-overlay", ov, "-o", out_bin, "./cmd/archsim"], cwd=hsrc, timeout=900)
+    if rc != 0:
+        ctx.skip("the GOARCH simulation does not build: " + e[-300:])
+        return []
+    viol = []
+    for ga in goarches:
+        rc, o, e = ctx.run([out_bin], env={"VERIF_GOARCH": ga}, timeout=120)
+        if rc != 0:
+            ctx.skip("archsim failed for %s" % ga)
+            continue
+        for r in json.loads(o)["results"]:
+            for i, c in enumerate(r["calls"]):
+                ctx.cov["evaluations"] += 1
+                if c.get("panic"):
+                    viol.append(("GOARCH %s: %s #%d of '%s' on policy '%s' panicked: %s" % (ga, c["op"], i + 1, r["seq"], r["policy"], c["panic"]), {"goarch": ga, "seq": r}))
+                elif ga not in tabled and (not c["err"] or c["program"]):
+                    viol.append(("GOARCH %s (no syscall table): %s #%d of the sequence '%s' on policy '%s' %s instead of failing with an unsupported-architecture error"
+                                 % (ga, c["op"], i + 1, r["seq"], r["policy"], "returned a program of %d instructions/bytes" % c["program"] if c["program"] else "returned no error"),
+                                 {"goarch": ga, "seq": r}))
+                elif ga not in tabled and not re.search(r"(?i)(unsupported|not supported|no syscall table)", c["err"]):
+                    viol.append(("GOARCH %s (no syscall table): %s #%d of the sequence '%s' on policy '%s' fails with %r, which is not the unsupported-architecture error"
+                                 % (ga, c["op"], i + 1, r["seq"], r["policy"], c["err"][:120]), {"goarch": ga, "seq": r}))
+                elif ga in tabled and r["policy"] != "names-unknown" and c["err"]:
+                    viol.append(("GOARCH %s (has a table): %s on policy '%s' fails: %s" % (ga, c["op"], r["policy"], c["err"][:120]), {"goarch": ga, "seq": r}))
+    return viol
+
+
 def check(ctx, replay=None):
     th = ctx.tier == "thorough"
     bindir = ctx.harness()
@@ -135,6 +179,8 @@ def check(ctx, replay=None):
             viol.append(("GOARCH %s: GetInfo %s" % (r["goarch"], "finds a table" if r["hastable"] else "fails: " + r["getinfo_err"]), {"goarch": r["goarch"]}))
         elif not r["hastable"] and "unsupported arch" not in r["getinfo_err"]:
             ctx.note("GOARCH %s: error text is %r" % (r["goarch"], r["getinfo_err"]))
+    # compilation on GOARCHs without tables, executed on the host through a build overlay
+    simviol = simulate_goarch(ctx, bindir, goarches, ("386", "amd64", "arm", "arm64"))
     # the same predicates decided by TLC on the facts
     data = {"targets": rows, "uapi": {k: str(v) for k, v in u.items()}, "enosys": {a: str(enosys_of(a)) for a in goarches}}
     dpath = ctx.path("consts.json")
@@ -144,7 +190,7 @@ def check(ctx, replay=None):
     r = ctx.tlc("ConstsMC", "SPECIFICATION Spec\nINVARIANTS I1 I2 I3 I4\nCHECK_DEADLOCK FALSE\n", files={"ConstsData.tla": datamod, "ConstsMC.tla": mc}, workers=2, timeout=600)
     if bool(viol) != bool(r["violated"]):
         raise vlib.Machinery("TLC (%s) and the witness search (%d) disagree" % (r["violated"], len(viol)))
-    for msg, w in viol:
+    for msg, w in viol + simviol:
         ctx.violation(msg, {"witness": w, "targets": targets, "how": "./check C19 --replay <this file> (re-extracts the facts for the listed targets)"})
     ctx.cov["distinct_nontrivial"] = nbuilt
     ctx.cov["exhaustive"] = th
